@@ -9,7 +9,7 @@
 """
 from __future__ import annotations
 from ._thermo import Thermo
-from ._stream import Stream
+from ._stream import Stream, Equations
 from ._thermal_condition import ThermalCondition
 from .indexer import MolarFlowIndexer
 from ._phase import phase_tuple
@@ -214,6 +214,7 @@ class MultiStream(Stream):
         thermo = self._load_thermo(thermo)
         chemicals = thermo.chemicals
         self.price = price
+        self.equations = Equations()
         phases = set(phase_flows).union(['l', 'g']) if phases is None else phases
         if units:
             name, factor = self._get_flow_name_and_factor(units)
@@ -266,6 +267,7 @@ class MultiStream(Stream):
         for i in others: i._thermal_condition = base._thermal_condition
         self._load_thermo(thermo or base.thermo)
         self.price = 0
+        self.equations = Equations()
         self._imol = MolarFlowIndexer.from_data(
             [streams_by_phase[i]._imol.data for i in phases], phases, 
             chemicals=base.chemicals
